@@ -6,30 +6,23 @@ Import ListNotations.
 Open Scope Z_scope.
 
 (* ---------------------------------------------------------------- ratio_check under exact limits *)
-Lemma exceedsb_zero_false : forall b L, 0 < b -> rl_int_ge1 L = true -> exceedsb 0 b L = false.
-Proof.
-  intros b L Hb HL. destruct L as [m e| | |]; try discriminate. cbn [rl_int_ge1] in HL.
-  rewrite exceedsb_int by lia.
-  pose proof (Z.pow_pos_nonneg 2 e ltac:(lia) ltac:(lia)). apply Z.ltb_ge. nia.
-Qed.
-
-Lemma ratio_check_exact : forall zero over lim size csize,
-  0 <= size < 2 ^ 53 -> 0 <= csize -> rl_int_ge1 lim = true ->
+Lemma ratio_check_exact : forall zero over lim S size csize,
+  0 <= size <= S -> 0 <= csize -> rl_exact S lim = true ->
   ratio_check zero over lim size csize =
     if (0 <? size) && (csize =? 0) then Some (Reject zero)
     else if (0 <? csize) && exceedsb size csize lim then Some (Reject over)
     else None.
 Proof.
-  intros zero over lim size csize Hs Hc HL. unfold ratio_check.
+  intros zero over lim S size csize Hs Hc HL. unfold ratio_check.
   destruct (0 <? size) eqn:S0; cbn [andb].
   - destruct (csize =? 0) eqn:C0.
     + replace (csize <=? 0) with true by lia. reflexivity.
     + replace (csize <=? 0) with false by lia. replace (0 <? csize) with true by lia. cbn [andb].
-      destruct (fdiv_exact size csize lim ltac:(lia) ltac:(lia) HL) as [q [Hq Hr]].
+      destruct (fdiv_exact_gen size csize S lim ltac:(lia) ltac:(lia) HL) as [q [Hq Hr]].
       rewrite Hq, Hr. reflexivity.
   - assert (size = 0) by lia. subst size.
     destruct (0 <? csize) eqn:C1; cbn [andb]; [|reflexivity].
-    rewrite exceedsb_zero_false by (assumption || lia). reflexivity.
+    rewrite (exceedsb_zero_false_gen csize S lim) by (assumption || lia). reflexivity.
 Qed.
 
 (* ---------------------------------------------------------------- the loop *)
@@ -77,8 +70,9 @@ Proof.
       unfold viol at 1 3.
       destruct (max_single L <? file_size x) eqn:S1.
       * cbn [orb]. split; [eexists; reflexivity|left; reflexivity].
-      * rewrite (ratio_check_exact ZeroCompressedEntry EntryRatio (max_entry_ratio L)
-                   (file_size x) (compress_size x)) by lia.
+      * apply andb_prop in HL'. destruct HL' as [HL' Hre]. apply andb_prop in HL'. destruct HL' as [HL' Hrt].
+        rewrite (ratio_check_exact ZeroCompressedEntry EntryRatio (max_entry_ratio L) (max_single L)
+                   (file_size x) (compress_size x)) by (exact Hre || lia).
         cbn [orb].
         destruct ((0 <? file_size x) && (compress_size x =? 0)) eqn:Z1.
         { cbn [orb]. split; [eexists; reflexivity|left; reflexivity]. }
@@ -142,7 +136,8 @@ Proof.
       destruct (existsb (viol L) (files es)); reflexivity.
   - destruct S as [E1 [E2 [E3 E4]]]. cbn in E1, E2. subst tu tc.
     specialize (E4 ltac:(lia)).
-    rewrite (ratio_check_exact ZeroCompressedTotal TotalRatio (max_total_ratio L)) by lia.
+    apply andb_prop in HL'. destruct HL' as [HL' Hre]. apply andb_prop in HL'. destruct HL' as [HL' Hrt].
+    rewrite (ratio_check_exact ZeroCompressedTotal TotalRatio (max_total_ratio L) (max_total L)) by (exact Hrt || lia).
     unfold b. rewrite E3. cbn [orb].
     replace (max_total L <? total_u (files es)) with false by lia. cbn [orb].
     destruct ((0 <? total_u (files es)) && (total_c (files es) =? 0)) eqn:Z1.
@@ -210,6 +205,95 @@ Lemma never_overflow : forall L es,
   limits_exact L = true -> sizes_nonneg (files es) = true -> validate L es <> Overflow.
 Proof.
   intros L es HL Hnn. destruct (validate_spec L es HL Hnn) as [[A B]|[[c A] B]]; rewrite A; discriminate.
+Qed.
+
+(* ---------------------------------------------------------------- one-sided soundness: ALL byte limits, ALL sizes *)
+Lemma ratio_check_sound : forall zero over lim size csize c,
+  rl_repr lim = true -> 0 <= csize ->
+  ratio_check zero over lim size csize = Some (Reject c) ->
+  (0 < size /\ csize = 0) \/ (0 < csize /\ exceedsb size csize lim = true).
+Proof.
+  intros zero over lim size csize c HL Hc H. unfold ratio_check in H.
+  destruct (0 <? size) eqn:S0; [|discriminate].
+  destruct (csize <=? 0) eqn:C0; [left; lia|].
+  destruct (fdiv size csize) as [q|] eqn:F; [|discriminate].
+  destruct (ratio_gt q lim) eqn:G; [|discriminate].
+  right. split; [lia|].
+  destruct lim as [m e| | |]; cbn [ratio_gt] in G; try discriminate; [|reflexivity].
+  cbn [rl_repr] in HL. apply andb_prop in HL. destruct HL as [H1 H2].
+  apply (fdiv_gt_sound size csize m e q); try lia; assumption.
+Qed.
+
+Lemma loop_sound : forall L es tu tc,
+  rl_repr (max_entry_ratio L) = true -> sizes_nonneg (files es) = true -> 0 <= tu ->
+  match loop L es tu tc with
+  | inl (Reject c) => existsb (viol L) (files es) = true \/ max_total L < tu + total_u (files es)
+  | inl _ => True
+  | inr (tu', tc') => tu' = tu + total_u (files es) /\ tc' = tc + total_c (files es)
+  end.
+Proof.
+  intros L es. induction es as [|x r IH]; intros tu tc HL Hnn Htu.
+  - cbn. split; lia.
+  - cbn [loop]. rewrite files_cons in *. destruct (is_dir x) eqn:D.
+    + apply IH; assumption.
+    + cbn [sizes_nonneg forallb] in Hnn. apply andb_prop in Hnn. destruct Hnn as [Hx Hr].
+      fold (sizes_nonneg (files r)) in Hr.
+      pose proof (total_u_nonneg _ Hr) as Tu.
+      cbn [existsb total_u total_c fold_right]. fold (total_u (files r)). fold (total_c (files r)).
+      unfold viol at 1.
+      destruct (max_single L <? file_size x) eqn:S1; [left; reflexivity|]. cbn [orb].
+      destruct (ratio_check ZeroCompressedEntry EntryRatio (max_entry_ratio L) (file_size x) (compress_size x))
+        as [o|] eqn:RC.
+      * destruct o as [|c|]; try exact I. left.
+        assert (Hcs : 0 <= compress_size x) by lia.
+        destruct (ratio_check_sound _ _ _ _ _ _ HL Hcs RC) as [[A B]|[A B]].
+        -- replace (0 <? file_size x) with true by lia. replace (compress_size x =? 0) with true by lia. reflexivity.
+        -- replace (0 <? compress_size x) with true by lia. rewrite B.
+           destruct ((0 <? file_size x) && (compress_size x =? 0)); reflexivity.
+      * destruct (max_total L <? tu + file_size x) eqn:T1; [right; lia|].
+        specialize (IH (tu + file_size x) (tc + compress_size x) HL Hr ltac:(lia)).
+        destruct (loop L r (tu + file_size x) (tc + compress_size x)) as [o|[tu' tc']].
+        -- destruct o as [|c|]; try exact I. destruct IH as [Hv|Ht]; [left; rewrite Hv|right; lia].
+           destruct ((0 <? file_size x) && (compress_size x =? 0)); destruct ((0 <? compress_size x) && _); reflexivity.
+        -- destruct IH. split; lia.
+Qed.
+
+Lemma zero_total_witness : forall l,
+  sizes_nonneg l = true -> 0 < total_u l -> total_c l = 0 ->
+  existsb (fun x => (0 <? file_size x) && (compress_size x =? 0)) l = true.
+Proof.
+  induction l as [|x r IH]; cbn [sizes_nonneg forallb total_u total_c fold_right existsb]; intros Hnn Hu Hc; [lia|].
+  apply andb_prop in Hnn. destruct Hnn as [Hx Hr]. fold (sizes_nonneg r) in Hr.
+  fold (total_u r) in Hu. fold (total_c r) in Hc.
+  pose proof (total_c_nonneg _ Hr). pose proof (total_u_nonneg _ Hr).
+  destruct (0 <? file_size x) eqn:F.
+  - replace (compress_size x =? 0) with true by lia. reflexivity.
+  - cbn [andb orb]. apply IH; try assumption; lia.
+Qed.
+
+(* whenever the guard rejects, the exact predicate holds -- for every limit setting whose ratio
+   limits are binary64 values (or ints below 2^53), every byte limit, every size *)
+Lemma reject_sound : forall L es,
+  rl_repr (max_total_ratio L) = true -> rl_repr (max_entry_ratio L) = true ->
+  sizes_nonneg (files es) = true ->
+  (exists c, validate L es = Reject c) -> Bomb L es.
+Proof.
+  intros L es HT HE Hnn [c Hc]. apply bombb_Bomb. unfold bombb. unfold validate in Hc.
+  destruct (max_entries L <? Z.of_nat (length es)) eqn:C; [reflexivity|]. cbn [orb].
+  unfold validate_body in Hc.
+  pose proof (loop_sound L es 0 0 HE Hnn ltac:(lia)) as S.
+  pose proof (total_c_nonneg _ Hnn) as Tc.
+  destruct (loop L es 0 0) as [o|[tu tc]].
+  - subst o. destruct S as [Hv|Ht].
+    + unfold viol in Hv. rewrite !existsb_orb in Hv. rewrite Hv. reflexivity.
+    + replace (max_total L <? total_u (files es)) with true by lia.
+      rewrite !orb_true_r. reflexivity.
+  - destruct S as [E1 E2]. cbn in E1, E2. subst tu tc.
+    destruct (ratio_check ZeroCompressedTotal TotalRatio (max_total_ratio L) (total_u (files es)) (total_c (files es)))
+      as [o|] eqn:RC; [|discriminate].
+    subst o. destruct (ratio_check_sound _ _ _ _ _ _ HT Tc RC) as [[A B]|[A B]].
+    + rewrite (zero_total_witness _ Hnn A B). rewrite !orb_true_r. reflexivity.
+    + replace (0 <? total_c (files es)) with true by lia. rewrite B. rewrite !orb_true_r. reflexivity.
 Qed.
 
 (* ---------------------------------------------------------------- directories are ignored (all limits, all sizes) *)
